@@ -6,5 +6,5 @@ CONSTANTS
   Checks <- AllChecks
   ForgedKinds <- AllKinds
   MaxForged = 1
-  MaxDup = 1
+  MaxDup = 0
 INVARIANTS TypeOK HistoryClean TransitionSound ConsumedClean EqualKeys KeyFromOperating MisbehavedIsExcluded OperatingNeverFail IntrudersNeverJoin IntruderFailsAtRoundThree
